@@ -20,6 +20,7 @@ def pairs(ctx, want_kind=None, need_sv=True):
     fx = facts(ctx)
     crate_by_key = {c["key"]: c for c in fx.crates}
     n = 0
+    broken_elsewhere = any((F.target_errors(fx, c) or c.get("expansion_error")) and not c.get("expect_fail") for c in fx.crates)
     for m in fx.items:
         if want_kind and m.kind != want_kind:
             continue
@@ -27,9 +28,13 @@ def pairs(ctx, want_kind=None, need_sv=True):
         if c.get("expect_fail"):
             continue
         exp = fx.expanded.get(m.crate_key)
-        if exp is None:
-            raise CheckError(f"no expansion for corpus target {m.crate_key} ({c['origin']})")
         errs = F.target_errors(fx, c)
+        if exp is None:
+            if errs or c.get("expansion_error") or broken_elsewhere:
+                # the target does not compile / its expansion is not parseable: reported by the compile rule of the owning properties
+                ctx.note(f"target {m.crate_key} skipped: {c.get('expansion_error') or 'no expansion (it, or a corpus crate it depends on, does not compile)'}")
+                continue
+            raise CheckError(f"no expansion for corpus target {m.crate_key} ({c['origin']})")
         if errs:
             # a corpus program that is meant to compile does not: surfaced by C-compile rule of the owning property
             ctx.note(f"target {m.crate_key} has {len(errs)} compile errors")
@@ -53,16 +58,22 @@ def corpus_must_compile(ctx, rule="compile"):
         if c.get("expect_fail"):
             continue
         w = c.get("witness")
-        if w is not None and not c.get("indexed", True):
-            continue            # pure compile witnesses are decided by witness.run_for of the owning property
+        if w is not None and (not c.get("indexed", True) or ctx.prop not in w["props"]):
+            continue            # witnesses are decided by the properties that own them (witness.run_for / this rule)
         errs = F.target_errors(fx, c)
         ctx.inst(rule)
-        if errs or (c.get("indexed", True) and not c["has_expansion"]):
-            e0 = errs[0] if errs else {"message": "no expansion produced", "spans": []}
+        if errs or (c.get("indexed", True) and not c["has_expansion"] and not broken_dep(fx, c)):
+            e0 = errs[0] if errs else {"message": c.get("expansion_error") or "no expansion produced", "spans": []}
             sp = next((s for s in e0["spans"] if s["is_primary"]), None)
             where = f"{sp['file']}:{sp['line_start']}" if sp else c["origin"]
             ctx.violation(rule, [c["key"]], where, "corpus program type-checks", f"{e0.get('code')}: {e0['message']}",
                           statement="a valid program of the corpus is rejected (or the generated code does not compile)")
+
+
+def broken_dep(fx, c):
+    """no diagnostics and no expansion: cargo skipped the target because a corpus crate it depends on failed (reported there)"""
+    return not F.target_errors(fx, c) and not c.get("expansion_error") and any(
+        (F.target_errors(fx, o) or o.get("expansion_error")) and not o.get("expect_fail") for o in fx.crates if o is not c)
 
 
 def where(m, node=None):
@@ -117,3 +128,25 @@ def enum_info(ctx, m, g, kind, rule):
             info.h2v.setdefault(a["handler"], []).append(a["variant"])
     info.key = key
     return info
+
+
+def corpus_adequacy(ctx, enforce=False):
+    """Template coverage of the generator by the corpus (vlib/adequacy.py): recorded in the evidence of every property that is
+    decided per corpus program; enforced (violation for an unexplained uncovered template) by the property that passes enforce=True."""
+    import zlib
+    from .. import adequacy
+    fx = facts(ctx)
+    key = ("adequacy", ctx.tier)
+    if key not in _cache:
+        texts = [zlib.decompress(z).decode("utf-8", "replace") for z in getattr(fx, "expanded_text_z", {}).values()]
+        _cache[key] = adequacy.template_coverage(texts)
+    cov = _cache[key]
+    ctx.extra["generator_template_coverage"] = {"templates": cov["total"], "observed_in_corpus_expansion": cov["covered"], "unmeasurable": cov["unmeasurable"],
+                                                "uncovered_explained": [f"{e['file']}::{e['fn']}#{e['index']}: {e['reason']}" for e in cov["allowlisted"]],
+                                                "uncovered": [f"{e['file']}:{e['line']} {e['fn']}#{e['index']}" for e in cov["uncovered"]]}
+    if enforce:
+        ctx.inst("ADEQ.template-coverage", cov["total"])
+        for e in cov["uncovered"]:
+            ctx.violation("ADEQ.template-coverage", [e["file"], e["fn"], e["index"]], f"{e['file']}:{e['line']} fn {e['fn']}", "every measurable quote! template of the generator is observed in the expansion of some corpus program",
+                          f"no corpus program takes this emission branch (literal run: `{e['sample_run']}`)", "corpus adequacy: translation validation is per corpus program, so the corpus must take every emission branch")
+    return cov
